@@ -202,18 +202,44 @@ fn single_v(ctx: &mut Ctx, mask: Vec<i32>, sigpipe_mode: u64, tag: &str, from_th
     if let Some(p) = &path_value {
         std::env::set_var("PATH", p);
     }
+    // in every other launch the caller has handlers installed for a few other signals (as programs do): they have no
+    // bearing on what the program is started with
+    static LAUNCHES: std::sync::atomic::AtomicU64 = std::sync::atomic::AtomicU64::new(0);
+    let launch_no = LAUNCHES.fetch_add(1, std::sync::atomic::Ordering::SeqCst);
+    let other_handlers = launch_no % 2 == 1;
+    if other_handlers {
+        ctx.count("launches_from_a_caller_with_handlers_for_other_signals", 1);
+    }
+    // ... and where the spawning thread has blocked a signal that is ignored by default, one such signal reaches the new
+    // process right after the fork in half of the cases: it is pending there while blocked
+    let self_signal = if launch_no % 4 < 2 { [libc::SIGURG, libc::SIGWINCH, libc::SIGCHLD].iter().cloned().find(|s| mask.contains(s)) } else { None };
+    if self_signal.is_some() {
+        ctx.count("children_that_get_a_blocked_signal_right_after_the_fork", 1);
+    }
     let body = move || {
         let config = config;
         let config = config.0;
         let argv = vec![bare_name.clone().unwrap_or_else(|| exe2.clone().into_os_string())];
         unsafe {
             let oldp = set_sigpipe(sigpipe_mode);
+            let others = [libc::SIGXFSZ, libc::SIGUSR2, libc::SIGHUP, libc::SIGXCPU];
+            let mut old_handlers = vec![];
+            if other_handlers {
+                for &sg in &others {
+                    old_handlers.push((sg, libc::signal(sg, noop_handler as usize)));
+                }
+            }
+            crate::interpose::CHILD_SELF_SIGNAL.store(self_signal.unwrap_or(0), std::sync::atomic::Ordering::SeqCst);
             let old = set_mask(&mask2);
             if let Some(e) = transient {
                 plan::add(Rule { kind: k::EXECVE, scope: plan::SCOPE_CHILD, nth: 1, fd: -1, act: plan::ACT_FAIL, val: e as i64, prob: 1000 });
             }
             let r = run::monitored(|| Popen::create(&argv, config));
             restore_mask(&old);
+            crate::interpose::CHILD_SELF_SIGNAL.store(0, std::sync::atomic::Ordering::SeqCst);
+            for (sg, h) in old_handlers {
+                libc::signal(sg, h);
+            }
             libc::signal(libc::SIGPIPE, oldp);
             r
         }
